@@ -3,10 +3,11 @@ CONSTANTS
   Groups = {"g1", "g2"}
   CleanupById = FALSE
   Consumers = {"c1", "c2", "c3"}
-  MaxEpoch = 3
+  MaxEpoch = 2
   MaxSubs = 4
   MaxOps = 6
   UsePlain = TRUE
+  UseBurst = TRUE
   UseBad = TRUE
 INVARIANTS TypeOK C13_OneActive ActiveRegistered RegOK
 PROPERTIES StepsOK
